@@ -253,7 +253,7 @@ theorem forward_spec (fuel : Nat) (path : Path) (hat : AtEntry path) (hps : Path
         simp [toList]
     · have hc' : (linkAt node (i + 1)).isNil = false := by simpa using hc
       have hcond : i + 1 < rowLen node + 1 ∧ ¬ (linkAt node (i + 1)).isNil = true := ⟨by omega, hc⟩
-      simp only [hcond, and_self, if_true]
+      rw [if_pos hcond]
       obtain ⟨hsc, hec⟩ := solid_linkAt node (i + 1) hsn
       have hne : isEmptyRow (linkAt node (i + 1)) = false := by
         rcases hec with h | h
@@ -280,6 +280,200 @@ theorem min_spec (fuel : Nat) (root : T) (hs : Solid root) (hf : lvl root < fuel
   have h1 := out_minFrom fuel root [] hf
   obtain ⟨h2, h3⟩ := minFrom_atEntry fuel root [] hf hs hne hn (by intro x hx; cases hx)
   exact ⟨by simpa [out] using h1, h2, h3⟩
+
+end Cursor
+end Mast
+
+namespace Mast
+open T
+namespace Cursor
+
+theorem lvl_linkAt_le (node : T) (i : Nat) : lvl (linkAt node i) ≤ lvl node := by
+  by_cases h : (linkAt node i).isNil = true
+  · have : linkAt node i = nil := by cases hl : linkAt node i <;> simp_all [isNil]
+    rw [this]; simp [lvl]
+  · have := lvl_linkAt_lt node i (by simpa using h); omega
+
+theorem minFrom_lvl (B : Nat) : ∀ (fuel : Nat) (node : T) (path : Path), lvl node ≤ B →
+    (∀ x ∈ path, lvl x.1 ≤ B) → ∀ x ∈ minFrom fuel node path, lvl x.1 ≤ B := by
+  intro fuel
+  induction fuel with
+  | zero => intro node path _ hp; simpa [minFrom] using hp
+  | succ fuel ih =>
+    intro node path hn hp
+    simp only [minFrom]
+    split
+    · exact hp
+    · apply ih
+      · have := lvl_linkAt_le node 0; omega
+      · intro x hx; simp at hx; rcases hx with rfl | hx
+        · have := lvl_linkAt_le node 0; simp; omega
+        · exact hp x hx
+
+theorem forward_lvl (B fuel : Nat) (path : Path) (hp : ∀ x ∈ path, lvl x.1 ≤ B) :
+    ∀ x ∈ forward fuel path, lvl x.1 ≤ B := by
+  cases path with
+  | nil => simp [forward]
+  | cons y rest =>
+    obtain ⟨node, i⟩ := y
+    have hn : lvl node ≤ B := hp (node, i) (by simp)
+    simp only [forward]
+    split
+    · apply minFrom_lvl B fuel
+      · have := lvl_linkAt_le node (i + 1); omega
+      · intro x hx; simp at hx
+        rcases hx with rfl | rfl | hx
+        · have := lvl_linkAt_le node (i + 1); simp; omega
+        · exact hn
+        · exact hp x (by simp [hx])
+    · split
+      · intro x hx; simp at hx; rcases hx with rfl | hx
+        · exact hn
+        · exact hp x (by simp [hx])
+      · intro x hx; exact hp x (popFwd_sub _ x hx)
+
+/-- the state of a cursor that has been placed and stepped: at an entry (or off the end), over
+    solid nodes no deeper than `B` -/
+structure Good (B : Nat) (path : Path) : Prop where
+  at_ : AtEntry path
+  solid : PathSolid path
+  depth : ∀ x ∈ path, lvl x.1 ≤ B
+
+theorem forward_good (B fuel : Nat) (hB : B < fuel) (path : Path) (g : Good B path) :
+    out (forward fuel path) = (out path).tail ∧ Good B (forward fuel path) := by
+  obtain ⟨h1, h2, h3⟩ := forward_spec fuel path g.at_ g.solid (fun x hx => by have := g.depth x hx; omega)
+  exact ⟨h1, h2, h3, forward_lvl B fuel path g.depth⟩
+
+/-- n forward steps -/
+def forwardN (fuel : Nat) : Nat → Path → Path
+  | 0, p => p
+  | n+1, p => forwardN fuel n (forward fuel p)
+
+theorem forwardN_spec (B fuel : Nat) (hB : B < fuel) : ∀ (n : Nat) (path : Path), Good B path →
+    out (forwardN fuel n path) = (out path).drop n ∧ Good B (forwardN fuel n path) := by
+  intro n
+  induction n with
+  | zero => intro path g; exact ⟨by simp [forwardN], g⟩
+  | succ n ih =>
+    intro path g
+    obtain ⟨h1, g1⟩ := forward_good B fuel hB path g
+    obtain ⟨h2, g2⟩ := ih (forward fuel path) g1
+    refine ⟨?_, g2⟩
+    simp only [forwardN]
+    rw [h2, h1, List.drop_tail]
+
+theorem good_off_end {B : Nat} {path : Path} (g : Good B path) (h : out path = []) : path = [] := by
+  cases path with
+  | nil => rfl
+  | cons x rest =>
+    obtain ⟨node, i⟩ := x
+    obtain ⟨e, _, hs⟩ := seekRow_lt node i g.at_
+    rw [out_cons, hs] at h
+    simp at h
+
+end Cursor
+end Mast
+
+namespace Mast
+open T
+namespace Cursor
+
+theorem lowerBound_le (k : Nat) : ∀ node : T, lowerBound k node ≤ rowLen node := by
+  intro node
+  induction node with
+  | nil => simp [lowerBound, rowLen]
+  | last p c _ => simp [lowerBound, rowLen]
+  | cons p c k' v' r _ ihr =>
+    simp only [lowerBound, rowLen]
+    split <;> omega
+
+/-- invariant of the paths `Ceil` builds: solid nodes, bounded depth, indices within the node -/
+def PathInv (B : Nat) (path : Path) : Prop :=
+  ∀ x ∈ path, Solid x.1 ∧ lvl x.1 ≤ B ∧ x.2 ≤ rowLen x.1
+
+theorem popCeil_sub : ∀ (path : Path) (x), x ∈ popCeil path → x ∈ path := by
+  intro path
+  induction path with
+  | nil => intro x hx; simp [popCeil] at hx
+  | cons y rest ih =>
+    intro x hx
+    obtain ⟨node, i⟩ := y
+    simp only [popCeil] at hx
+    split at hx
+    · exact List.mem_cons_of_mem _ (ih x hx)
+    · exact hx
+
+theorem popCeil_atEntry (B : Nat) : ∀ (path : Path), PathInv B path → AtEntry (popCeil path) := by
+  intro path
+  induction path with
+  | nil => intro _; simp [popCeil, AtEntry]
+  | cons y rest ih =>
+    intro hp
+    obtain ⟨node, i⟩ := y
+    simp only [popCeil]
+    split
+    · exact ih (fun x hx => hp x (by simp [hx]))
+    · next hne =>
+      have := (hp (node, i) (by simp)).2.2
+      simp only [AtEntry]; simp only at this; omega
+
+theorem entryAt_some_lt : ∀ (node : T) (i : Nat) (e : Nat × Nat), entryAt node i = some e → i < rowLen node := by
+  intro node
+  induction node with
+  | nil => intro i e h; cases i <;> simp [entryAt] at h
+  | last p c _ => intro i e h; cases i <;> simp [entryAt] at h
+  | cons p c k v r _ ihr =>
+    intro i e h
+    cases i with
+    | zero => simp [rowLen]
+    | succ i => simp only [entryAt] at h; have := ihr i e h; simp [rowLen]; omega
+
+theorem ceil_inv (B k : Nat) : ∀ (fuel : Nat) (node : T) (i0 : Nat) (rest : Path),
+    lvl node < fuel → Solid node → lvl node ≤ B → PathInv B rest →
+    PathInv B (ceil k fuel ((node, i0) :: rest)) ∧ AtEntry (ceil k fuel ((node, i0) :: rest)) := by
+  intro fuel
+  induction fuel with
+  | zero => intro node i0 rest h; omega
+  | succ fuel ih =>
+    intro node i0 rest hf hs hl hp
+    have hp' : PathInv B ((node, lowerBound k node) :: rest) := by
+      intro x hx; simp at hx
+      rcases hx with rfl | hx
+      · exact ⟨hs, hl, lowerBound_le k node⟩
+      · exact hp x hx
+    have descend : (linkAt node (lowerBound k node)).isNil = false →
+        PathInv B (ceil k fuel ((linkAt node (lowerBound k node), 0) :: (node, lowerBound k node) :: rest)) ∧
+        AtEntry (ceil k fuel ((linkAt node (lowerBound k node), 0) :: (node, lowerBound k node) :: rest)) := by
+      intro hc'
+      apply ih
+      · have := lvl_linkAt_lt node _ hc'; omega
+      · exact (solid_linkAt node _ hs).1
+      · have := lvl_linkAt_le node (lowerBound k node); omega
+      · exact hp'
+    have stop : PathInv B (popCeil ((node, lowerBound k node) :: rest)) ∧ AtEntry (popCeil ((node, lowerBound k node) :: rest)) :=
+      ⟨fun x hx => hp' x (popCeil_sub _ x hx), popCeil_atEntry B _ hp'⟩
+    simp only [ceil]
+    cases he : entryAt node (lowerBound k node) with
+    | some kv =>
+      obtain ⟨k', v'⟩ := kv
+      simp only []
+      split
+      · exact ⟨hp', entryAt_some_lt node _ _ he⟩
+      · by_cases hc : (linkAt node (lowerBound k node)).isNil = true
+        · simp only [hc, if_true]; exact stop
+        · have hc' : (linkAt node (lowerBound k node)).isNil = false := by simpa using hc
+          simp only [hc', Bool.false_eq_true, if_false]; exact descend hc'
+    | none =>
+      simp only []
+      by_cases hc : (linkAt node (lowerBound k node)).isNil = true
+      · simp only [hc, if_true]; exact stop
+      · have hc' : (linkAt node (lowerBound k node)).isNil = false := by simpa using hc
+        simp only [hc', Bool.false_eq_true, if_false]; exact descend hc'
+
+theorem ceil_good (k fuel : Nat) (root : T) (hs : Solid root) (hf : lvl root < fuel) :
+    Good (lvl root) (ceil k fuel [(root, 0)]) := by
+  obtain ⟨h1, h2⟩ := ceil_inv (lvl root) k fuel root 0 [] hf hs (Nat.le_refl _) (by intro x hx; cases hx)
+  exact ⟨h2, fun x hx => (h1 x hx).1, fun x hx => (h1 x hx).2.1⟩
 
 end Cursor
 end Mast
